@@ -249,6 +249,58 @@ theorem step_inv (s s' : St) (e : Ev) (hi : Inv s) (hs : step? true s e = some s
     · split at hs <;> cases hs
       · exact ⟨hi.fresh, hi.sub, hi.distinct, hi.past, hi.downOld, hi.wire, hi.sound, hi.complete, hi.keys⟩
       · exact hi
+  | reqLate id k =>
+    simp only [step?] at hs
+    split at hs
+    · rename_i hstale
+      simp only [if_true] at hs
+      cases hs
+      constructor
+      · intro H hH
+        simp only [List.mem_cons] at hH
+        rcases hH with rfl | hH
+        · simp
+        · have := hi.fresh H hH; show H.hid < s.next + 1; omega
+      · intro H hH
+        simp only [List.mem_cons] at hH ⊢
+        rcases hH with rfl | hH
+        · exact Or.inl rfl
+        · exact Or.inr (hi.sub H hH)
+      · intro H hH H' hH' heq
+        simp only [List.mem_cons] at hH hH'
+        rcases hH with rfl | hH <;> rcases hH' with rfl | hH'
+        · rfl
+        · have := hi.fresh H' hH'; simp at heq; omega
+        · have := hi.fresh H hH; simp at heq; omega
+        · exact hi.distinct H hH H' hH' heq
+      · intro H hH
+        simp only [List.mem_cons] at hH
+        rcases hH with rfl | hH
+        · simp only [Bool.or_eq_true, decide_eq_true_eq, Bool.and_eq_true] at hstale
+          show k ≤ s.epoch
+          rcases hstale with h | h
+          · omega
+          · omega
+        · exact hi.past H hH
+      · exact hi.downOld
+      · intro w hw
+        obtain ⟨H, hH, h1⟩ := hi.wire w hw
+        exact ⟨H, List.mem_cons_of_mem _ hH, h1⟩
+      · intro p hp
+        obtain ⟨H, hH, h1⟩ := hi.sound p hp
+        exact ⟨H, List.mem_cons_of_mem _ hH, h1⟩
+      · intro H hH hep hd
+        simp only [List.mem_cons] at hH
+        rcases hH with rfl | hH
+        · simp only [Bool.or_eq_true, decide_eq_true_eq, Bool.and_eq_true] at hstale
+          have hep' : k = s.epoch := hep
+          have hd' : s.down = false := hd
+          rcases hstale with h | h
+          · omega
+          · rw [hd'] at h; simp at h
+        · exact hi.complete H hH hep hd
+      · exact hi.keys
+    · cases hs
 
 theorem run_inv (es : List Ev) : ∀ (s s' : St), Inv s → run? true s es = some s' → Inv s' := by
   induction es with
@@ -315,6 +367,28 @@ theorem Epoch_stale_done_keeps (s s' : St) (h : Nat) (H : Handler) (hf : find? s
   simp [step?, hf, hne] at hs
   cases hs; rfl
 
+/-- A request that is stale when it is executed (F18b) changes nothing for the current connection: the map and
+    the wire stay as they are, and its context is cancelled from the start. -/
+theorem Epoch_late_request_inert (s s' : St) (id k : Nat) (hs : step? true s (.reqLate id k) = some s') :
+    s'.handling = s.handling ∧ s'.wire = s.wire ∧ s.next ∈ s'.cancelled := by
+  simp only [step?] at hs
+  split at hs
+  · simp only [if_true] at hs; cases hs; simp
+  · cases hs
+
+/-- … so its answer is never written: when it is executed its epoch already differs from the current one, or the
+    connection is being replaced and will have changed before anything can be written to it. -/
+theorem Epoch_late_answer_silent (s s1 s2 : St) (id k : Nat) (hlt : k < s.epoch)
+    (h1 : step? true s (.reqLate id k) = some s1) (h2 : step? true s1 (.answer s.next) = some s2) :
+    s2.wire = s.wire := by
+  have hstale : (decide (k < s.epoch) || (decide (k = s.epoch) && s.down)) = true := by simp [hlt]
+  simp only [step?, hstale, if_true] at h1
+  cases h1
+  simp only [step?, find?, List.find?_cons, beq_self_eq_true] at h2
+  have hne : (k != s.epoch) = true := by simp; omega
+  simp [hne] at h2
+  cases h2; rfl
+
 /-! ### The code before the repair (F18) fails both, on a five-event history -/
 
 /-- request 1 on the first connection; loss; reconnect; request 1 on the second connection; the first
@@ -333,6 +407,14 @@ def staleCancel : List Ev := [.req 1, .loss, .swap, .req 1, .done 0, .cancel 1]
 example : (run? false {} staleCancel).map (fun s => decide (1 ∈ s.cancelled)) = some false := by decide
 /-- … with the repair it is. -/
 example : (run? true {} staleCancel).map (fun s => decide (1 ∈ s.cancelled)) = some true := by decide
+
+/-- the first request is still queued when its connection ends; it is executed after the redial, and answers. -/
+def staleQueued : List Ev := [.loss, .swap, .reqLate 1 0, .req 1, .answer 0]
+
+/-- Before repair F18b its answer is written on connection 1 under id 1 (its request arrived on connection 0); with the
+    repair nothing is written and the genuine request of connection 1 is the one registered under the id. -/
+example : (run? false {} [.loss, .swap, .reqLate 1 0, .answer 0]).map (·.wire) = some [(1, 1, 0)] := by decide
+example : (run? true {} staleQueued).map (fun s => (s.wire, s.handling)) = some ([], [(1, 1)]) := by decide
 
 /-- Non-vacuity: a history with two reconnects, overlapping ids and late handlers is accepted, the invariant's
     premises hold of it, and its wire carries one answer per connection. -/
